@@ -102,6 +102,11 @@ struct CSlice {
 
 struct Scen {
     cls: String,
+    /// everything the leader signed is one correct block (the first `n` slices)
+    honest: bool,
+    n: usize,
+    /// hash of that block: double-Merkle root over the roots of its slices (what a repair is started for)
+    leader_hash: Option<BlockHash>,
     slices: Vec<CSlice>,
     blocks: Vec<(usize, usize)>,
     max_idx: usize,
@@ -333,8 +338,18 @@ impl BsDriver {
                 parents.push((name.clone(), self.parent_id(name, parslot).expect("parent")));
             }
         }
+        let honest = sc["honest"].as_bool().unwrap_or(false);
+        let n = sc["n"].as_u64().unwrap_or(0) as usize;
+        let leader_hash = if honest && n > 0 && n <= slices.len() {
+            Some(DoubleMerkleTree::new(slices[..n].iter().map(|s| &s.root)).get_root())
+        } else {
+            None
+        };
         Scen {
             cls: sc["cls"].as_str().expect("cls").to_string(),
+            honest,
+            n,
+            leader_hash,
             slices,
             blocks,
             max_idx: act["maxidx"].as_u64().expect("maxidx") as usize,
@@ -514,6 +529,150 @@ impl BsDriver {
         json!({"rets": rets, "evs": evs, "blk": blk, "pool": pool, "panic": panic})
     }
 
+    /// repair.rs, handle_response(Shred): shreds are fully verified (no commitment cache) and filed under the
+    /// hash the repair was started for; a completed block must carry that hash and is handed to the pool
+    fn repair(&mut self, sc: &Rc<Scen>, k: usize, b: usize) -> Value {
+        let cs = &sc.slices[k - 1];
+        let (lo, hi) = sc.blocks[b - 1];
+        let hash = sc.leader_hash.clone().expect("repair needs the leader's block hash");
+        let mut rets: Vec<Value> = Vec::new();
+        let mut evs: Vec<Value> = Vec::new();
+        let mut blk = json!({"ok": false, "hash": [], "par": "none", "ntx": 0});
+        let mut pool = "-".to_string();
+        let mut panic = String::new();
+        for r in lo..=hi {
+            self.micro_calls += 1;
+            let v = cs.valid[r].clone();
+            let store = &mut self.store;
+            let h = hash.clone();
+            let res = catch_unwind(AssertUnwindSafe(|| futures::executor::block_on(store.add_shred_from_repair(h, v))));
+            let mut returned: Option<BlockInfo> = None;
+            match res {
+                Ok(Ok(None)) => rets.push(json!("none")),
+                Ok(Ok(Some(info))) => {
+                    rets.push(json!("block"));
+                    blk = self.leader_block_view(sc, info.verif_hash(), info.verif_parent());
+                    pool = self.pool_handover(sc, &info);
+                    returned = Some(info);
+                }
+                Ok(Err(AddShredError::Duplicate)) => rets.push(json!("dup")),
+                Ok(Err(AddShredError::Equivocation)) => rets.push(json!("equiv")),
+                Ok(Err(AddShredError::InvalidShred)) => rets.push(json!("invalid")),
+                Ok(Err(AddShredError::WrongKind)) => rets.push(json!("wrongkind")),
+                Err(p) => {
+                    panic = panic_msg(p);
+                    rets.push(json!(format!("panic:{panic}")));
+                }
+            }
+            evs.extend(self.drain_events(sc, returned.as_ref()));
+            if !panic.is_empty() {
+                break;
+            }
+        }
+        for e in &evs {
+            self.bump(format!("{}:rep-ev:{}", sc.cls, e.as_str().unwrap_or("?")));
+        }
+        json!({"rets": rets, "evs": evs, "blk": blk, "pool": pool, "panic": panic})
+    }
+
+    /// a block announced for the repair of the leader's block: must be that block (hash as requested)
+    fn leader_block_view(&self, sc: &Scen, hash: &BlockHash, parent: &BlockId) -> Value {
+        let want = sc.leader_hash.as_ref().expect("leader hash");
+        let hash_view = if hash_bytes(hash) == hash_bytes(want) {
+            json!((1..=sc.n as i64).collect::<Vec<_>>())
+        } else {
+            json!(["repaired-block-has-another-hash-than-requested"])
+        };
+        let want_txs: Vec<&Vec<u8>> = sc.slices[..sc.n].iter().flat_map(|s| s.txs.iter()).collect();
+        let ntx = match self.store.get_block(&(sc.slot, hash.clone())) {
+            None => json!("announced-block-not-stored"),
+            Some(b) => {
+                let t = b.verif_transactions();
+                if t.len() == want_txs.len() && t.iter().zip(&want_txs).all(|(a, b)| &a.0 == *b) {
+                    json!(t.len())
+                } else {
+                    json!(format!("transactions-differ({})", t.len()))
+                }
+            }
+        };
+        json!({"ok": true, "hash": hash_view, "par": self.parent_name(sc, parent), "ntx": ntx})
+    }
+
+    /// honest scenarios: is the leader's block served completely for the id (slot, hash)?
+    /// (block, last slice index, every slice root, every proof, all 64 shreds of every slice)
+    fn serves_leader(&self, sc: &Scen) -> Result<(), String> {
+        *self.serve_checks.borrow_mut() += 1;
+        let hash = sc.leader_hash.as_ref().ok_or("no-leader-hash")?;
+        let id: BlockId = (sc.slot, hash.clone());
+        let block = self.store.get_block(&id).ok_or("get_block")?;
+        if hash_bytes(block.verif_hash()) != hash_bytes(hash) || block.verif_slot() != sc.slot {
+            return Err("get_block:hash-or-slot".into());
+        }
+        let want_txs: Vec<&Vec<u8>> = sc.slices[..sc.n].iter().flat_map(|s| s.txs.iter()).collect();
+        let t = block.verif_transactions();
+        if t.len() != want_txs.len() || !t.iter().zip(&want_txs).all(|(a, b)| &a.0 == *b) {
+            return Err("get_block:transactions".into());
+        }
+        if self.store.get_last_slice_index(&id) != Some(slice_index(sc.n - 1)) {
+            return Err("get_last_slice_index".into());
+        }
+        for i in 0..sc.n {
+            let si = slice_index(i);
+            let cs = &sc.slices[i];
+            match self.store.get_slice_root(&id, si) {
+                Some(r) if r == cs.root => {}
+                _ => return Err(format!("get_slice_root:{i}")),
+            }
+            match self.store.create_double_merkle_proof(&id, si) {
+                Some(p) if DoubleMerkleTree::check_proof(&cs.root, i, hash, &p) => {}
+                _ => return Err(format!("create_double_merkle_proof:{i}")),
+            }
+            for r in 0..TOTAL_SHREDS {
+                match self.store.get_shred(&id, si, ShredIndex::new(r).expect("shred index")) {
+                    Some(s) if wire(s.as_shred()) == cs.wire[r] => {}
+                    _ => return Err(format!("get_shred:{i}:{r}")),
+                }
+            }
+        }
+        if self.store.get_slice_root(&id, slice_index(sc.n)).is_some() {
+            return Err("serves-a-slice-beyond-the-last".into());
+        }
+        Ok(())
+    }
+
+    /// what the getters show for the id (slot, hash of the leader's block)
+    fn getter_view(&self, sc: &Scen) -> Value {
+        let Some(hash) = sc.leader_hash.as_ref() else {
+            return json!({"last": -1, "blk": false, "held": []});
+        };
+        let id: BlockId = (sc.slot, hash.clone());
+        let last = self.store.get_last_slice_index(&id).map_or(-1, |l| l.to_string().parse::<i64>().unwrap_or(-9));
+        let blk = self.store.get_block(&id).is_some();
+        let mut held = Vec::new();
+        for i in 0..=sc.max_idx {
+            let si = slice_index(i);
+            let mut h = [false; TOTAL_SHREDS];
+            for (r, hr) in h.iter_mut().enumerate() {
+                if let Some(s) = self.store.get_shred(&id, si, ShredIndex::new(r).expect("shred index")) {
+                    // whatever is served must be the leader's shred
+                    *hr = sc.slices.iter().any(|cs| cs.idx == i && cs.wire[r] == wire(s.as_shred()));
+                    if !*hr {
+                        return json!({"last": last, "blk": blk, "held": format!("get_shred:{i}:{r}:foreign-shred")});
+                    }
+                }
+            }
+            let n = h.iter().filter(|x| **x).count();
+            let groups: Vec<usize> =
+                sc.blocks.iter().enumerate().filter(|(_, (lo, hi))| (*lo..=*hi).all(|r| h[r])).map(|(b, _)| b + 1).collect();
+            // a slice root is served exactly for the slices with at least one shred
+            if self.store.get_slice_root(&id, si).is_some() != (n > 0) {
+                return json!({"last": last, "blk": blk, "held": format!("get_slice_root:{i}:presence")});
+            }
+            held.push(json!({"n": n, "groups": groups}));
+        }
+        json!({"last": last, "blk": blk, "held": held})
+    }
+
     fn own(&mut self, sc: &Rc<Scen>, k: usize) -> Value {
         let cs = &sc.slices[k - 1];
         let payload = SlicePayload::try_from(cs.payload.as_deref().expect("own slice has a payload")).expect("own payload decodes");
@@ -666,6 +825,11 @@ impl Driver for BsDriver {
                 }
                 out
             }
+            "repair" => {
+                let sc = self.cur.clone().expect("setup first");
+                self.last_label = format!("repair:{}", sc.cls);
+                self.repair(&sc, act["k"].as_u64().expect("k") as usize, act["b"].as_u64().expect("b") as usize)
+            }
             "own" => {
                 let sc = self.cur.clone().expect("setup first");
                 self.last_label = format!("own:{}", sc.cls);
@@ -696,8 +860,26 @@ impl Driver for BsDriver {
         if bad && hash.is_some() {
             self.bump(format!("{}:obs:done-then-flagged", sc.cls));
         }
+        // a correct leader's block: served for (slot, hash) as soon as EITHER spot completed it
+        let mut serve_detail = Value::Null;
+        let serve = if sc.honest {
+            match self.serves_leader(&sc) {
+                Ok(()) => json!(true),
+                Err(e) => {
+                    serve_detail = json!(e);
+                    json!(false)
+                }
+            }
+        } else {
+            serve
+        };
+        let get = self.getter_view(&sc);
+        if sc.honest && hash.is_some() && get["held"][0]["n"] == json!(TOTAL_SHREDS) {
+            self.bump(format!("{}:obs:served-after-dissemination", sc.cls));
+        }
         if bad {
-            return json!({"bad": true, "done": done, "serve": serve, "last": -2, "cache": [], "held": [], "rec": []});
+            return json!({"bad": true, "done": done, "serve": serve, "serve_detail": serve_detail, "get": get,
+                          "last": -2, "cache": [], "held": [], "rec": []});
         }
         let last = self.store.verif_last_slice(slot).map_or(-1, |l| l as i64);
         let mut cache = Vec::new();
@@ -723,7 +905,8 @@ impl Driver for BsDriver {
         }
         let extra: Vec<usize> = held_real.iter().filter(|(s, v)| *s > sc.max_idx && !v.is_empty()).map(|(s, _)| *s).collect();
         let rec: Vec<usize> = if hash.is_some() { vec![] } else { self.store.verif_reconstructed(slot) };
-        let mut o = json!({"bad": false, "done": done, "serve": serve, "last": last, "cache": cache, "held": held, "rec": rec});
+        let mut o = json!({"bad": false, "done": done, "serve": serve, "serve_detail": serve_detail, "get": get,
+                           "last": last, "cache": cache, "held": held, "rec": rec});
         if !extra.is_empty() {
             o["held_beyond_model"] = json!(extra);
         }
@@ -777,6 +960,22 @@ impl Driver for BsDriver {
         }
         if as_set(&exp["rec"]) != as_set(&got["rec"]) {
             f.push("rec".to_string());
+        }
+        // getters by block id (dissemination spot if it completed that hash, else the repair spot)
+        let (eg, gg) = (&exp["get"], &got["get"]);
+        if !eg.is_null() {
+            if eg["last"] != gg["last"] {
+                f.push("get.last".to_string());
+            }
+            if eg["blk"] != gg["blk"] {
+                f.push("get.blk".to_string());
+            }
+            let (eh, gh) = (eg["held"].as_array().cloned().unwrap_or_default(), gg["held"].as_array().cloned());
+            match gh {
+                Some(gh) if eh.len() == gh.len()
+                    && eh.iter().zip(&gh).all(|(a, b)| a["n"] == b["n"] && as_set(&a["groups"]) == as_set(&b["groups"])) => {}
+                _ => f.push("get.held".to_string()),
+            }
         }
         if got.get("held_beyond_model").is_some() {
             f.push("held_beyond_model".to_string());
